@@ -573,13 +573,19 @@ LAYOUTS = [
     ("first-chunk-differs", "ABCD", "-BCD"),
     ("last-chunk-differs", "ABCD", "ABC-"),
     ("first-chunk-differs-longer-prior", "ABC", "-BC--"),
+    # the source ends in a short chunk that the (shorter) prior output also ends in
+    ("short-tail-shared", "ABCDt", "Dt"),
+    ("short-tail-shared-longer-prior", "ABt", "BA--t"),
 ]
 
 
 def words(s, junk_salt=0):
     out = b""
     for i, ch in enumerate(s):
-        out += (bytes([35 + (i + junk_salt) % 9]) * 4) if ch == "-" else ch.encode() * 4
+        if ch == "t":
+            out += b"xy"       # a 2-byte tail: only meaningful as the last letter (a short, EOF-terminated chunk)
+        else:
+            out += (bytes([35 + (i + junk_salt) % 9]) * 4) if ch == "-" else ch.encode() * 4
     return out
 
 
@@ -690,6 +696,8 @@ def _inplace(ctx, pid, observe_fetch):
                 if observe_fetch:
                     # expected: unique source words not present (as aligned 4-byte chunks) in the prior
                     have = set() if kind == "new-file" else {prior[j:j + 4] for j in range(0, len(prior) - 3, 4)}
+                    if kind not in ("new-file", "block", "seed-block") and len(prior) % 4:
+                        have.add(prior[len(prior) // 4 * 4:])   # the short chunk a file (not a device) ends in
                     if kind in ("block", "seed-block"):
                         have |= {b"\0\0\0\0"}
                     uniq = []
@@ -697,15 +705,16 @@ def _inplace(ctx, pid, observe_fetch):
                         w = source[j:j + 4]
                         if w not in uniq:
                             uniq.append(w)
-                    hdr = len(ab) - 4 * len(uniq)
+                    hdr = len(ab) - sum(len(w) for w in uniq)
                     want = []
+                    o = hdr
                     for idx, w in enumerate(uniq):
                         if w not in have:
-                            o = hdr + 4 * idx
                             if want and want[-1][1] + 1 == o:
-                                want[-1][1] = o + 3
+                                want[-1][1] = o + len(w) - 1
                             else:
-                                want.append([o, o + 3])
+                                want.append([o, o + len(w) - 1])
+                        o += len(w)
                     reqs = [rg for (_t, rg) in srv.requests_for(f"case={i:04d}")]
                     got = []
                     for rg in reqs[2:]:
@@ -800,16 +809,107 @@ def c03(ctx):
                 elif open(out, "rb").read() != source:
                     viol.add("success-with-wrong-output", detail)
                 os.remove(out)
+        # content-defined chunks of 1-4 MiB: data inserted in front / removed from the front moves every chunk by less
+        # than its own size (a chunk's destination overlaps its own old place)
+        import random
+        big_src = random.Random("c03-cdc").randbytes(12 << 20)
+        d = os.path.join(root, "cdc")
+        os.makedirs(d)
+        src, arc = os.path.join(d, "src.bin"), os.path.join(d, "a.cba")
+        with open(src, "wb") as f:
+            f.write(big_src)
+        r = sh([bita, "compress", "--hash-chunking", "RollSum", "--min-chunk-size", "1MiB", "--avg-chunk-size", "2MiB", "--max-chunk-size", "4MiB", "--compression", "none", "-i", src, arc], timeout=300)
+        if r.returncode != 0:
+            raise RuntimeError("compress failed: " + r.stderr.decode())
+        for lname, prior in (("30 kB inserted in front", b"i" * 30000 + big_src), ("300 kB removed from the front", big_src[300000:]),
+                             ("1.5 MiB inserted in front", bytes(1536 * 1024) + big_src)):
+            out = os.path.join(d, "out.bin")
+            with open(out, "wb") as f:
+                f.write(prior)
+            r = sh([bita, "clone", "--seed-output", arc, out], timeout=300)
+            big_n += 1
+            detail = {"layout": lname, "chunks": "RollSum 1-4 MiB", "source_bytes": len(big_src)}
+            if r.returncode != 0:
+                detail["stderr"] = r.stderr.decode()[-300:]
+                viol.add("valid-clone-failed" if r.returncode != 101 else "clone-panicked", detail)
+            elif not files_equal(src, out):
+                viol.add("success-with-wrong-output", detail)
+            os.remove(out)
         n += big_n
     finally:
         shutil.rmtree(root, ignore_errors=True)
     res["coverage"]["evaluations"] += n
     res["coverage"]["large_chunk_in_place_cases"] = big_n
     res["coverage"]["stdin_seed_in_place_cases"] = n - big_n
-    res["coverage"]["rule"] += "; plus every layout x every single source word / junk / the whole source piped into `--seed -` together with --seed-output; plus shifts, a rotation and a swap of whole blocks of 2 MiB + 1 and 3 MiB (more than one read(2) / write(2) of the runtime moves)"
+    res["coverage"]["rule"] += "; plus every layout x every single source word / junk / the whole source piped into `--seed -` together with --seed-output; plus shifts, a rotation and a swap of whole blocks of 2 MiB + 1 and 3 MiB (more than one read(2) / write(2) of the runtime moves), and content-defined chunks of 1-4 MiB with data inserted in front / removed from the front (every chunk moves by less than its own size)"
     res["violation_classes"] += viol.list()
     res["wall_s"] += time.time() - t0
     return res
+
+
+SEED_EQ_CONFIGS = [
+    ("rollsum", ["--hash-chunking", "RollSum", "--rolling-window-size", "16B", "--min-chunk-size", "64B", "--avg-chunk-size", "256B", "--max-chunk-size", "1KiB"], range(0, 40, 3)),
+    # the minimum below the window, a window other than the default, BuzHash with its own default window
+    ("rollsum-min-below-window", ["--hash-chunking", "RollSum", "--rolling-window-size", "64B", "--min-chunk-size", "16B", "--avg-chunk-size", "128B", "--max-chunk-size", "1KiB"], (0, 7, 29)),
+    ("buzhash-min-below-window", ["--hash-chunking", "BuzHash", "--rolling-window-size", "48B", "--min-chunk-size", "8B", "--avg-chunk-size", "64B", "--max-chunk-size", "512B"], (0, 7, 29)),
+    ("buzhash-default-window", ["--hash-chunking", "BuzHash", "--min-chunk-size", "64B", "--avg-chunk-size", "256B", "--max-chunk-size", "1KiB"], (0, 11)),
+    ("rollsum-window-20", ["--hash-chunking", "RollSum", "--rolling-window-size", "20B", "--min-chunk-size", "64B", "--avg-chunk-size", "256B", "--max-chunk-size", "1KiB"], (0, 11)),
+]
+
+
+def seed_equals_source_http(bita, root, viol, cls):
+    """Clone over HTTP with the source itself as seed (file and stdin), several chunker configurations and source
+    lengths: nothing is missing, so nothing but the two header reads may be requested. -> number of cases"""
+    S = pattern(20040, 5)
+    files, cases, n = {}, [], 0
+    for cname, cargs, extras in SEED_EQ_CONFIGS:
+        for extra in extras:
+            St = S[:20000 + extra]
+            d = os.path.join(root, f"t-{cname}-{extra}")
+            os.makedirs(d)
+            src, arc = os.path.join(d, "s.bin"), os.path.join(d, "a.cba")
+            with open(src, "wb") as f:
+                f.write(St)
+            r = sh([bita, "compress", "--compression", "none", "-i", src, arc] + cargs)
+            if r.returncode != 0:
+                raise RuntimeError("compress failed: " + r.stderr.decode())
+            with open(arc, "rb") as f:
+                files[f"t-{cname}-{extra}.cba"] = f.read()
+            cases.append((cname, extra, d, src, St))
+    with RangeServer(files) as srv:
+        for cname, extra, d, src, St in cases:
+            for how in ("file", "stdin"):
+                tag = f"seq={cname}-{extra:03d}{how}"
+                argv = [bita, "clone", "--seed", src if how == "file" else "-", srv.url(f"t-{cname}-{extra}.cba", tag), os.path.join(d, f"out-{how}.bin")]
+                r = sh(argv, stdin_data=St if how == "stdin" else None)
+                n += 1
+                reqs = [rg for (_t, rg) in srv.requests_for(tag)]
+                detail = {"case": "seed == source over HTTP", "chunker": cname, "source_bytes": len(St), "seed_given_as": how, "requests": reqs}
+                if r.returncode != 0:
+                    viol.add("valid-clone-failed", dict(detail, stderr=r.stderr.decode()[-300:]))
+                elif len(reqs) > 2:
+                    viol.add(cls, detail)
+    return n
+
+
+def c07(ctx):
+    """C07 at the command line: when nothing is missing no chunk-data request is made, whatever the chunker
+    configuration the archive records."""
+    t0 = time.time()
+    root = tempfile.mkdtemp(prefix="verif-c07-")
+    viol = Viol("c07")
+    try:
+        n = seed_equals_source_http(ctx["bita"], root, viol, "requests-differ-from-maximal-runs-of-missing-chunks")
+    finally:
+        shutil.rmtree(root, ignore_errors=True)
+    # ... and the hand-picked in-place layouts / seed kinds of the C06 leg: requests == maximal runs of the missing words
+    inp = _inplace(ctx, "C07", True)
+    for c in inp["violation_classes"]:
+        viol.add(c["class"], c["examples"][0] if c["examples"] else {})
+    n += inp["coverage"]["evaluations"]
+    cov = {"evaluations": n, "cli_seed_equals_source_cases": n - inp["coverage"]["evaluations"], "cli_in_place_layout_cases": inp["coverage"]["evaluations"], "exhaustive": True,
+           "rule": "real binary over HTTP with the source itself as seed file / stdin seed, 5 chunker configurations (incl. minimum below window, non-default windows) x several source lengths: the maximal runs of missing chunks are empty, so no request beyond the two header reads is made"}
+    return result(ctx["pid"], "exploration", cov, viol, t0, ["A5"])
 
 
 def c06(ctx):
@@ -822,36 +922,7 @@ def c06(ctx):
     try:
         # (a) rolling-hash archives whose last chunk is shorter than the minimum, cloned with the source itself as
         #     seed over HTTP: nothing but the header may be requested
-        S = pattern(20040, 5)
-        cargs = ["--hash-chunking", "RollSum", "--rolling-window-size", "16B", "--min-chunk-size", "64B", "--avg-chunk-size", "256B", "--max-chunk-size", "1KiB", "--compression", "none"]
-        files = {}
-        cases = []
-        for extra in range(0, 40, 3):
-            St = S[:20000 + extra]
-            d = os.path.join(root, f"t{extra}")
-            os.makedirs(d)
-            src, arc = os.path.join(d, "s.bin"), os.path.join(d, "a.cba")
-            with open(src, "wb") as f:
-                f.write(St)
-            r = sh([bita, "compress", "-i", src, arc] + cargs)
-            if r.returncode != 0:
-                raise RuntimeError("compress failed: " + r.stderr.decode())
-            with open(arc, "rb") as f:
-                files[f"t{extra}.cba"] = f.read()
-            cases.append((extra, d, src, arc, St))
-        with RangeServer(files) as srv:
-            for extra, d, src, arc, St in cases:
-                for how in ("file", "stdin"):
-                    tag = f"tail={extra:03d}{how}"
-                    argv = [bita, "clone", "--seed", src if how == "file" else "-", srv.url(f"t{extra}.cba", tag), os.path.join(d, f"out-{how}.bin")]
-                    r = sh(argv, stdin_data=St if how == "stdin" else None)
-                    n += 1
-                    reqs = [rg for (_t, rg) in srv.requests_for(tag)]
-                    detail = {"case": "seed == source, last chunk possibly shorter than the minimum", "source_bytes": len(St), "seed_given_as": how, "requests": reqs}
-                    if r.returncode != 0:
-                        viol.add("valid-clone-failed", dict(detail, stderr=r.stderr.decode()[-300:]))
-                    elif len(reqs) > 2:
-                        viol.add("available-chunk-fetched", detail)
+        n += seed_equals_source_http(bita, root, viol, "available-chunk-fetched")
         # (b) a LOCAL archive: the byte ranges read from the archive file (strace) lie inside the header and the stored
         #     ranges of the chunks that are really missing
         import re
@@ -919,7 +990,7 @@ def c06(ctx):
         shutil.rmtree(root, ignore_errors=True)
     res["coverage"]["evaluations"] += n
     res["coverage"]["tail_and_local_read_cases"] = n
-    res["coverage"]["rule"] += "; plus RollSum archives of 14 source lengths (last chunk shorter than the minimum) cloned over HTTP with the source itself as seed file / stdin seed: only the header is requested; plus a local archive under strace with 4 seeds: every byte read from the archive file lies in the header or in the stored range of a chunk that is really missing"
+    res["coverage"]["rule"] += "; plus archives of 5 chunker configurations (incl. minimum below window, non-default windows; 14 source lengths under RollSum so that the last chunk is shorter than the minimum) cloned over HTTP with the source itself as seed file / stdin seed: only the header is requested; plus a local archive under strace with 4 seeds: every byte read from the archive file lies in the header or in the stored range of a chunk that is really missing"
     res["violation_classes"] += viol.list()
     res["wall_s"] += time.time() - t0
     return res
@@ -1047,6 +1118,14 @@ def c12(ctx):
         md += ["--metadata-value", f"key-{k * 7 % 9}", f"value {k}"]
     groups.append(("dup-words", words("ABACADAB") * 3, "fixed", ["--fixed-size", "64B"], "none+9-metadata-entries", ["--compression", "none"] + md))
     groups.append(("pattern", pattern(5000, 9), "rollsum", groups[2][3], "brotli+9-metadata-entries", ["--compression", "brotli"] + md))
+    # chunks on both sides of 1 MiB in one run (encoder state carried from one chunk to the next would show): 6 runs of
+    # 2 MiB of one byte each, then 2.3 MiB of irregular text; only buffered-chunks 2 and 8, file input
+    import random
+    rnd = random.Random("c12-large")
+    vocab = [bytes(rnd.choice(b"abcdefghijklmnopqrstuvwxyz") for _ in range(rnd.randint(2, 11))) for _ in range(4000)]
+    text = b" ".join(rnd.choice(vocab) for _ in range(420000))[:2300000]
+    groups.append(("large-mixed", b"".join(bytes([65 + k]) * (2 << 20) for k in range(6)) + text, "rollsum-2MiB",
+                   ["--hash-chunking", "RollSum", "--min-chunk-size", "16KiB", "--avg-chunk-size", "64KiB", "--max-chunk-size", "2MiB"], "brotli-large", ["--compression", "brotli"]))
     reps = 6 if thorough else 3
     runs = 0
     samples = []
@@ -1061,8 +1140,9 @@ def c12(ctx):
             f.write(sb)
         seen = {}
         n = 0
-        for buffers in (1, 2, 3, 8, 64):
-            for inp in ("file", "stdin", "fifo", "dev-stdin"):
+        large = pname == "brotli-large"
+        for buffers in ((2, 8) if large else (1, 2, 3, 8, 64)):
+            for inp in (("file",) if large else ("file", "stdin", "fifo", "dev-stdin")):
                 for rep in range(reps if inp in ("file", "stdin") else 1):
                     if inp in ("fifo", "dev-stdin") and buffers not in (2, 64):
                         continue
@@ -1538,7 +1618,7 @@ def c10(ctx):
 
 
 def replay(ctx, detail):
-    fn = {"c10": c10, "c09": c09, "c01": c01, "c02": c02, "c03": c03, "c06": c06, "c11": c11, "c12": c12, "c13": c13}[detail.get("function", "c01")]
+    fn = {"c07": c07, "c10": c10, "c09": c09, "c01": c01, "c02": c02, "c03": c03, "c06": c06, "c11": c11, "c12": c12, "c13": c13}[detail.get("function", "c01")]
     res = fn(dict(ctx, tier="quick"))
     return bool(res["violation_classes"])
 
@@ -1548,5 +1628,5 @@ if __name__ == "__main__":
     import sys
     fn = sys.argv[1]
     tier = sys.argv[2] if len(sys.argv) > 2 else "quick"
-    r = {"c10": c10, "c09": c09, "c01": c01, "c02": c02, "c03": c03, "c06": c06, "c11": c11, "c12": c12, "c13": c13}[fn]({"pid": fn.upper(), "tier": tier, "seed": 0, "bita": "/verif/build/bita/release/bita", "vh": "", "verif": "/verif", "build": "/verif/build"})
+    r = {"c07": c07, "c10": c10, "c09": c09, "c01": c01, "c02": c02, "c03": c03, "c06": c06, "c11": c11, "c12": c12, "c13": c13}[fn]({"pid": fn.upper(), "tier": tier, "seed": 0, "bita": "/verif/build/bita/release/bita", "vh": "", "verif": "/verif", "build": "/verif/build"})
     print(json.dumps(r, indent=1)[:5000])
